@@ -349,7 +349,12 @@ class BinaryGroup(GroupNode):
     has_boost = False
 
     def query(self, parser):
-        assert len(self.nodes) == 2
+        if len(self.nodes) != 2:
+            # An operand was a dangling operator that has since been removed
+            # (e.g. "a ANDNOT ANDNOT b"): fall back to what is left
+            subs = [n.query(parser) for n in self.nodes]
+            subs = [q for q in subs if q is not None]
+            return attach(subs[0], self) if subs else None
 
         qa = self.nodes[0].query(parser)
         qb = self.nodes[1].query(parser)
